@@ -215,14 +215,15 @@ Definition up_size (u : upstream) (sri : option string) : Z :=
   match sri, up_cl u <? 0 with Some _, false => up_cl u | _, _ => b_len (up_body u) end.
 
 Lemma fetch_item_limit c d u sri :
-  up_size u sri > c_maxblob (fc_disk c) -> fetch_item c d u sri = (d, None).
+  up_size u sri > c_maxblob (fc_disk c) ->
+  fetch_item c d u sri = (d, Err ENotFound) \/ fetch_item c d u sri = (d, Err EBadRequest).
 Proof.
-  unfold up_size, fetch_item. intros HL. destruct (negb (up_ok u)); [reflexivity|].
+  unfold up_size, fetch_item. intros HL. destruct (negb (up_ok u)); [left; reflexivity|].
   destruct sri as [h|]; [destruct (up_cl u <? 0)|].
-  - destruct (negb (b_clean (up_body u))); [reflexivity|].
-    destruct (negb (String.eqb h (up_actual u))); [reflexivity|]. rewrite disk_put_refused by lia. reflexivity.
-  - rewrite disk_put_refused by lia. reflexivity.
-  - destruct (up_cl u <? 0); (destruct (negb (b_clean (up_body u))); [reflexivity|]; rewrite disk_put_refused by lia; reflexivity).
+  - destruct (negb (b_clean (up_body u))); [left; reflexivity|].
+    destruct (negb (String.eqb h (up_actual u))); [left; reflexivity|]. rewrite disk_put_refused by lia. right. reflexivity.
+  - rewrite disk_put_refused by lia. right. reflexivity.
+  - destruct (up_cl u <? 0); (destruct (negb (b_clean (up_body u))); [left; reflexivity|]; rewrite disk_put_refused by lia; right; reflexivity).
 Qed.
 
 Lemma fetch_uris_limit c sri : forall us d,
@@ -230,7 +231,7 @@ Lemma fetch_uris_limit c sri : forall us d,
   fetch_uris c d us sri = (d, SErr ENotFound, None).
 Proof.
   induction us as [|u t IH]; intros d HF; [reflexivity|]. inversion HF; subst. cbn.
-  rewrite fetch_item_limit by assumption. apply IH. assumption.
+  destruct (fetch_item_limit c d u sri H1) as [-> | ->]; apply IH; assumption.
 Qed.
 
 (* ---------------- what GetCapabilities advertises ---------------- *)
